@@ -196,7 +196,18 @@ def main(argv=None):
     known = load_known()
     cov = start_coverage(pid)
     try:
+        regen_error = None
+        if getattr(mod, "REGENERATE_SRC", False):
+            # the model text that is translated from the source is re-emitted first: the theorems that
+            # equate it with the hand-written model are then re-checked against the current source
+            try:
+                from . import translate
+                ctx.notes["generated_src_changed"] = translate.regenerate()
+            except Exception as e:
+                regen_error = "%s: %s" % (type(e).__name__, e)
         ctx.lean_status = lean.prepare(pid, thorough=args.tier == "thorough")
+        if regen_error:
+            ctx.lean_status["bad"].append("translator:harness/vh/translate.py (%s)" % regen_error[:200])
         if not ctx.lean_status["driver_ok"]:
             # the executable model itself does not build: if generated tables are the
             # cause this is a broken obligation, otherwise an internal error
